@@ -16,12 +16,12 @@ from mc.common import bump, new_result
 
 PROPERTY = "C18"
 RULE = (
-    "every Distribution / Flow subject x config (<=1 deviation; thorough <=2) x pattern pat1 x num_samples {1,2,3,5} x batch_size {None,1,2,3,5,7} x context rows {as configured: none or 1,2,3 "
+    "every Distribution / Flow subject x config (<=2 deviations; thorough <=3) x pattern pat1 x num_samples {1,2,3,5} x batch_size {None,1,2,3,5,7} x context rows {as configured: none or 1,2,3 "
     "rows} plus the illegal arguments {0,-1,2.0,'3',None} for num_samples and {0,-1,2.0,'3'} for batch_size and a context with a mismatching row count for log_prob. One case = one call; "
     "non-trivial = batch_size does not divide num_samples, or >=2 context rows, or an illegal argument."
 )
 ASSUMPTIONS = [
-    "float32 (the library's default dtype: its samplers create default-dtype noise); trace-back tolerance 5e-3 (float32 autoregressive inverses; injected items are >= 2e-2 apart)",
+    "flows run in float64 with float64 noise supplied by the seam (trace-back tolerance 1e-6); distributions whose samplers allocate default-dtype buffers themselves run in float32 (5e-3)",
     "torch.randn replaced by a tagging seam (item k = quasi-random distinct base value + 0.013*arange(event size)); torch.rand/multinomial left alone (shape contract only for Bernoulli and the mixture)",
     "trace-back: StandardNormal draws are the injected items; flows with a StandardNormal base via transform_to_noise(sample, context row); ConditionalDiagonalNormal via the log_prob differences within a block",
     "a distribution that does not offer sampling signals it with NotImplementedError (DiagonalNormal): skipped and counted",
@@ -35,8 +35,17 @@ def bounds(tier, seed):
     return {"num_samples": list(NS), "batch_size": list(BS), "context_rows": [1, 2, 3], "illegal_counts": [0, -1, 2.0, "3", None]}
 
 
+def dtype_for(d, cfg):
+    """flows are traced in float64 (the seam supplies float64 noise) so that the trace-back is exact; everything whose sampler
+    allocates default-dtype buffers itself (MADE mixture, Bernoulli) runs in the library's default float32"""
+    if d.is_flow and cfg.get("base") != "mog":
+        return torch.float64
+    return torch.float32
+
+
 class Tagger:
-    def __init__(self):
+    def __init__(self, dtype=None):
+        self.force = dtype
         self.k = 0
         self.items = []
         self.calls = []
@@ -44,7 +53,7 @@ class Tagger:
     def randn(self, *size, **kw):
         if len(size) == 1 and isinstance(size[0], (tuple, list, torch.Size)):
             size = tuple(size[0])
-        dtype = kw.get("dtype") or torch.get_default_dtype()
+        dtype = self.force or kw.get("dtype") or torch.get_default_dtype()
         n = int(size[0]) if len(size) else 1
         ev = tuple(size[1:])
         E = int(np.prod(ev)) if ev else 1
@@ -69,10 +78,11 @@ def check_sample(d, obj, cfg, n, bs, rows, seed):
     """returns list[(cell, symptom, msg)], info"""
     out = []
     es = d.event_shape(cfg)
-    ctx = d.contexts(cfg, rows, seed, dtype=torch.float32) if rows else None
+    dt = dtype_for(d, cfg)
+    ctx = d.contexts(cfg, rows, seed, dtype=dt) if rows else None
     if d.needs_context and ctx is None:
         return out, {"skip": "needs context"}
-    tg = Tagger()
+    tg = Tagger(dt if dt == torch.float64 else None)
     cell = "%s%s" % ("context" if ctx is not None else "no-context", "" if bs is None else (",batched" + ("-nondividing" if n % bs else "")))
     try:
         with mock.patch.object(torch, "randn", tg.randn), torch.no_grad():
@@ -105,7 +115,7 @@ def check_sample(d, obj, cfg, n, bs, rows, seed):
     if noise is not None and tg.items:
         used = set()
         for r in range(noise.shape[0]):
-            i = find_item(tg.items, noise[r].reshape(-1).double())
+            i = find_item(tg.items, noise[r].reshape(-1).double(), tol=(1e-6 if dt == torch.float64 else 5e-3))
             if i is None:
                 out.append((cell, "draw does not map back to an injected noise item under its own context row", "draw %d (context row %s) maps to noise %s which is none of the %d injected items" % (r, None if ctx is None else r // n, noise[r].reshape(-1).tolist()[:3], len(tg.items))))
                 break
@@ -149,12 +159,14 @@ def check_sample(d, obj, cfg, n, bs, rows, seed):
 def check_salp(d, obj, cfg, n, rows, seed):
     out = []
     es = d.event_shape(cfg)
-    ctx = d.contexts(cfg, rows, seed, dtype=torch.float32) if rows else None
+    dt = dtype_for(d, cfg)
+    ctx = d.contexts(cfg, rows, seed, dtype=dt) if rows else None
     if d.needs_context and ctx is None:
         return out, {"skip": "needs context"}
     cell = "context" if ctx is not None else "no-context"
+    tg = Tagger(dt if dt == torch.float64 else None)
     try:
-        with torch.no_grad():
+        with mock.patch.object(torch, "randn", tg.randn), torch.no_grad():
             torch.manual_seed(5)
             s, lp = obj.sample_and_log_prob(n, context=ctx)
     except NotImplementedError:
@@ -170,8 +182,9 @@ def check_salp(d, obj, cfg, n, rows, seed):
 
 def check_log_prob(d, obj, cfg, rows, seed):
     out = []
-    x = d.points(cfg, rows, seed, dtype=torch.float32)
-    ctx = d.contexts(cfg, rows, seed, dtype=torch.float32)
+    dt = dtype_for(d, cfg)
+    x = d.points(cfg, rows, seed, dtype=dt)
+    ctx = d.contexts(cfg, rows, seed, dtype=dt)
     try:
         with torch.no_grad():
             lp = obj.log_prob(x, context=ctx)
@@ -183,7 +196,7 @@ def check_log_prob(d, obj, cfg, rows, seed):
         for bad in (rows + 1, max(1, rows - 1) if rows > 1 else 2):
             if bad == rows:
                 continue
-            c2 = d.contexts(cfg, bad, seed, dtype=torch.float32)
+            c2 = d.contexts(cfg, bad, seed, dtype=dt)
             try:
                 with torch.no_grad():
                     obj.log_prob(x, context=c2)
@@ -197,7 +210,7 @@ def check_log_prob(d, obj, cfg, rows, seed):
 
 def check_illegal(d, obj, cfg, seed):
     out = []
-    ctx = d.contexts(cfg, 2, seed, dtype=torch.float32)
+    ctx = d.contexts(cfg, 2, seed, dtype=dtype_for(d, cfg))
     if d.needs_context and ctx is None:
         return out
     for bad in (0, -1, 2.0, "3", None):
@@ -230,7 +243,7 @@ def run_subject(dname, cfg, seed, res, only=None):
     d = DC.DSUBJECTS[dname]
     vio = []
     try:
-        obj = DC.materialise(d, cfg, "pat1" if "pat1" in d.patterns else "init", seed, dtype=torch.float32)
+        obj = DC.materialise(d, cfg, "pat1" if "pat1" in d.patterns else "init", seed, dtype=dtype_for(d, cfg))
     except Exception as e:
         bump(res["skipped"], "cannot-construct (C05's subject): %s" % type(e).__name__)
         return vio
@@ -280,7 +293,7 @@ def run_subject(dname, cfg, seed, res, only=None):
 
 
 def units(tier, seed):
-    k = 1 if tier == "quick" else 2
+    k = 2 if tier == "quick" else 3
     return [(name, cfg, seed) for name, d in DC.DSUBJECTS.items() if d.torch_tensor_api for cfg in DC.enum_configs(d, k)]
 
 
